@@ -14,7 +14,7 @@
 (* served (a bounded absolute clock would hide or invent non-progress).    *)
 (*                                                                         *)
 (* Bug* constants switch on behaviours the repaired code does not have     *)
-(* (two of them are the pinned commit's, three are seeded-defect shapes);  *)
+(* (two of them are the pinned commit's, five are seeded-defect shapes);   *)
 (* the corresponding configurations are expected to FAIL.                  *)
 (***************************************************************************)
 EXTENDS Integers, Sequences, FiniteSets, TLC
@@ -38,7 +38,11 @@ CONSTANTS
   \* @type: Bool;
   BugFallbackBeforeLoop,    \* C08: the fallback send happens only before the first root move
   \* @type: Bool;
-  BugStaleGameOver          \* C08: the terminal test uses a flag computed at `position` time
+  BugStaleGameOver,         \* C08: the terminal test uses a flag computed at `position` time
+  \* @type: Bool;
+  BugGameOverLatch,         \* C16: a "game is over" latch set by a go in a finished game and cleared by ucinewgame only
+  \* @type: Bool;
+  BugGivesUpOnGarbage       \* C17: a counter of consecutive lines that were not understood; the loop returns when it reaches two
 
 VARIABLES
   \* @type: Int;
@@ -49,8 +53,8 @@ VARIABLES
   board,      \* [id, n]: the engine's current position
   \* @type: Seq(Int);
   table,      \* repetition record: sequence of position ids since the last position command
-  \* @type: Bool;
-  flagOver,   \* (only used by BugStaleGameOver) game-over flag
+  \* @type: {over: Bool, unk: Int};
+  hid,        \* hidden session state of the Bug* variants: a game-over flag, a count of lines not understood (the repaired code has neither)
   \* @type: Int;
   left,       \* ticks until the deadline of the go being served
   \* @type: Seq({pos: Int, mv: Int});
@@ -79,13 +83,13 @@ VARIABLES
   stage,      \* where the search thread stands with an improvement: "idle" | "accepted" (clock test passed) | "sent" (board handed over, line not yet printed)
   \* @type: Int;
   cur         \* the root move of that improvement
-vars == <<nread, io, board, table, flagOver, left, chan, best, srch, root, sent, started, pending, out, nextId, ngo, owed, stage, cur>>
+vars == <<nread, io, board, table, hid, left, chan, best, srch, root, sent, started, pending, out, nextId, ngo, owed, stage, cur>>
 
 Pos(id, n) == [id |-> id, n |-> n]
 NoBest == [pos |-> -1, mv |-> 0]
 Line(t, a, b) == [t |-> t, a |-> a, b |-> b]
 
-Init == /\ nread = 0 /\ io = "read" /\ board = Pos(0, MaxMoves) /\ table = <<>> /\ flagOver = FALSE
+Init == /\ nread = 0 /\ io = "read" /\ board = Pos(0, MaxMoves) /\ table = <<>> /\ hid = [over |-> FALSE, unk |-> 0]
         /\ left = 0 /\ chan = <<>> /\ best = NoBest /\ srch = "none" /\ root = Pos(0, 0) /\ sent = 0 /\ started = FALSE
         /\ pending = "none" /\ out = <<>> /\ nextId = 1 /\ ngo = 0 /\ owed = {} /\ stage = "idle" /\ cur = 0
 
@@ -94,28 +98,38 @@ Init == /\ nread = 0 /\ io = "read" /\ board = Pos(0, MaxMoves) /\ table = <<>> 
 (***************************************************************************)
 IsReady == /\ io = "read" /\ nread < MaxCmds /\ nread' = nread + 1
            /\ out' = Append(out, Line("readyok", 0, 0))
-           /\ UNCHANGED <<io, board, table, flagOver, left, chan, best, srch, root, sent, started, pending, nextId, ngo, owed, stage, cur>>
+           /\ hid' = [hid EXCEPT !.unk = 0]
+           /\ UNCHANGED <<io, board, table, left, chan, best, srch, root, sent, started, pending, nextId, ngo, owed, stage, cur>>
 
-\* unknown command, empty line, ucinewgame, setoption: nothing changes
+\* unknown command, empty line, setoption: nothing changes
 Ignored == /\ io = "read" /\ nread < MaxCmds /\ nread' = nread + 1
-           /\ UNCHANGED <<io, board, table, flagOver, left, chan, best, srch, root, sent, started, pending, out, nextId, ngo, owed, stage, cur>>
+           /\ hid' = IF BugGivesUpOnGarbage THEN [hid EXCEPT !.unk = @ + 1] ELSE hid
+           /\ io' = IF BugGivesUpOnGarbage /\ hid.unk + 1 >= 2 THEN "dead" ELSE io
+           /\ UNCHANGED <<board, table, left, chan, best, srch, root, sent, started, pending, out, nextId, ngo, owed, stage, cur>>
+
+\* ucinewgame: a known command that changes nothing the properties speak about (the repaired code keeps board and record)
+NewGame == /\ io = "read" /\ nread < MaxCmds /\ nread' = nread + 1
+           /\ hid' = [over |-> IF BugGameOverLatch THEN FALSE ELSE hid.over, unk |-> 0]
+           /\ UNCHANGED <<io, board, table, left, chan, best, srch, root, sent, started, pending, out, nextId, ngo, owed, stage, cur>>
 
 \* position X: the record is cleared and rebuilt, the board replaced: a function of the command alone
 Position == /\ io = "read" /\ nread < MaxCmds /\ nread' = nread + 1
             /\ \E n \in 0..MaxMoves :
                  /\ board' = Pos(nextId, n)
-                 /\ flagOver' = (n = 0)
+                 /\ hid' = [over |-> IF BugGameOverLatch THEN hid.over ELSE (n = 0), unk |-> 0]
             /\ table' = <<nextId>>
             /\ nextId' = nextId + 1
             /\ UNCHANGED <<io, left, chan, best, srch, root, sent, started, pending, out, ngo, owed, stage, cur>>
 
-Terminal == IF BugStaleGameOver THEN flagOver ELSE board.n = 0
+Terminal == IF BugStaleGameOver THEN hid.over ELSE IF BugGameOverLatch THEN (hid.over \/ board.n = 0) ELSE board.n = 0
 
 \* go in a finished game: answered at once with the null move (repaired code)
 GoTerminal == /\ io = "read" /\ nread < MaxCmds /\ nread' = nread + 1 /\ ngo' = ngo + 1
               /\ Terminal /\ ~BugNoAnswerWhenNoMoves
-              /\ out' = Append(out, Line("bestmove", board.id, 0))
-              /\ UNCHANGED <<io, board, table, flagOver, left, chan, best, srch, root, sent, started, pending, nextId, owed, stage, cur>>
+              \* (third field: minus the number of legal moves of the position answered with the null move - 0 in a finished game)
+              /\ out' = Append(out, Line("bestmove", board.id, 0 - board.n))
+              /\ hid' = IF BugGameOverLatch THEN [hid EXCEPT !.over = TRUE] ELSE hid
+              /\ UNCHANGED <<io, board, table, left, chan, best, srch, root, sent, started, pending, nextId, owed, stage, cur>>
 
 \* go: slice computed, deadline set, search thread spawned on a copy of board and table
 GoAccept == /\ io = "read" /\ nread < MaxCmds /\ nread' = nread + 1 /\ ngo' = ngo + 1
@@ -124,21 +138,22 @@ GoAccept == /\ io = "read" /\ nread < MaxCmds /\ nread' = nread + 1 /\ ngo' = ng
             /\ io' = "poll" /\ best' = NoBest /\ srch' = "run" /\ root' = board /\ sent' = 0 /\ started' = FALSE
             /\ chan' = IF BugSharedChannel THEN chan ELSE <<>>
             /\ pending' = "go" /\ stage' = "idle" /\ cur' = 0
-            /\ UNCHANGED <<board, table, flagOver, out, nextId, owed>>
+            /\ UNCHANGED <<board, table, hid, out, nextId, owed>>
 
 Quit == /\ io = "read" /\ nread < MaxCmds /\ nread' = nread + 1 /\ io' = "dead"
-        /\ UNCHANGED <<board, table, flagOver, left, chan, best, srch, root, sent, started, pending, out, nextId, ngo, owed, stage, cur>>
+        /\ out' = Append(out, Line("exit", 0, 0))
+        /\ UNCHANGED <<board, table, hid, left, chan, best, srch, root, sent, started, pending, nextId, ngo, owed, stage, cur>>
 
 Eof == /\ io = "read" /\ nread = MaxCmds
-       /\ IF BugEofSpins THEN UNCHANGED io ELSE io' = "dead"
-       /\ UNCHANGED <<nread, board, table, flagOver, left, chan, best, srch, root, sent, started, pending, out, nextId, ngo, owed, stage, cur>>
+       /\ IF BugEofSpins THEN UNCHANGED <<io, out>> ELSE io' = "dead" /\ out' = Append(out, Line("exit", 1, 0))
+       /\ UNCHANGED <<nread, board, table, hid, left, chan, best, srch, root, sent, started, pending, nextId, ngo, owed, stage, cur>>
 
 (***************************************************************************)
 (* I/O thread: the polling loop `while !out_of_time || best_move.is_none()`*)
 (***************************************************************************)
 PollRecv == /\ io = "poll" /\ chan # <<>>
             /\ best' = Head(chan) /\ chan' = Tail(chan)
-            /\ UNCHANGED <<nread, io, board, table, flagOver, left, srch, root, sent, started, pending, out, nextId, ngo, owed, stage, cur>>
+            /\ UNCHANGED <<nread, io, board, table, hid, left, srch, root, sent, started, pending, out, nextId, ngo, owed, stage, cur>>
 
 \* leaves the loop only when the deadline has passed AND a board was received; prints it and adopts it
 PollExit == /\ io = "poll" /\ left = 0 /\ best # NoBest
@@ -149,10 +164,10 @@ PollExit == /\ io = "poll" /\ left = 0 /\ best # NoBest
             \* the search thread hands its board over BEFORE it prints the line for it (engine.rs: tx.send, then
             \* send_search_info): a thread that stands between the two when the answer goes out still owes that line
             /\ owed' = IF srch = "run" /\ stage = "sent" THEN owed \cup {root.id} ELSE owed
-            /\ UNCHANGED <<nread, table, flagOver, left, chan, best, srch, root, sent, started, ngo, stage, cur>>
+            /\ UNCHANGED <<nread, table, hid, left, chan, best, srch, root, sent, started, ngo, stage, cur>>
 
 Tick == /\ io = "poll" /\ left > 0 /\ left' = left - 1
-        /\ UNCHANGED <<nread, io, board, table, flagOver, chan, best, srch, root, sent, started, pending, out, nextId, ngo, owed, stage, cur>>
+        /\ UNCHANGED <<nread, io, board, table, hid, chan, best, srch, root, sent, started, pending, out, nextId, ngo, owed, stage, cur>>
 
 (***************************************************************************)
 (* Search thread (boundary behaviour of get_best_move).                    *)
@@ -164,20 +179,20 @@ Send(mv) == chan' = Append(chan, [pos |-> root.id, mv |-> mv])
 SrchAccept == /\ io = "poll" /\ srch = "run" /\ root.n > 0 /\ left > 0 /\ sent < MaxSends /\ stage = "idle"
               /\ \E m \in 1..root.n : cur' = m
               /\ stage' = "accepted" /\ started' = TRUE
-              /\ UNCHANGED <<nread, io, board, table, flagOver, left, chan, best, srch, root, sent, pending, out, nextId, ngo, owed>>
+              /\ UNCHANGED <<nread, io, board, table, hid, left, chan, best, srch, root, sent, pending, out, nextId, ngo, owed>>
 \* ... the board handed over (while the polling loop of its own go is still there to receive it; afterwards the send fails
 \* and the thread dies without printing - the named deviation SrchSendAfterClose, nothing visible) ...
 SrchSend == /\ io = "poll" /\ srch = "run" /\ stage = "accepted"
             /\ Send(cur) /\ sent' = sent + 1 /\ stage' = "sent"
-            /\ UNCHANGED <<nread, io, board, table, flagOver, left, best, srch, root, started, pending, out, nextId, ngo, owed, cur>>
+            /\ UNCHANGED <<nread, io, board, table, hid, left, best, srch, root, started, pending, out, nextId, ngo, owed, cur>>
 \* ... and the info line printed (inside its own go: not recorded in `out`; after the answer: OrphanLastLine)
 SrchPrint == /\ io = "poll" /\ srch = "run" /\ stage = "sent"
              /\ stage' = "idle"
-             /\ UNCHANGED <<nread, io, board, table, flagOver, left, chan, best, srch, root, sent, started, pending, out, nextId, ngo, owed, cur>>
+             /\ UNCHANGED <<nread, io, board, table, hid, left, chan, best, srch, root, sent, started, pending, out, nextId, ngo, owed, cur>>
 
 \* the first root move is being searched when nothing has been accepted yet
 SrchStart == /\ srch = "run" /\ root.n > 0 /\ ~started /\ started' = TRUE
-             /\ UNCHANGED <<nread, io, board, table, flagOver, left, chan, best, srch, root, sent, pending, out, nextId, ngo, owed, stage, cur>>
+             /\ UNCHANGED <<nread, io, board, table, hid, left, chan, best, srch, root, sent, pending, out, nextId, ngo, owed, stage, cur>>
 
 \* deadline seen at the head of the root loop: fallback send if nothing was sent, then return
 SrchStop == /\ srch = "run" /\ root.n > 0 /\ left = 0 /\ (stage = "idle" \/ io # "poll")
@@ -185,24 +200,24 @@ SrchStop == /\ srch = "run" /\ root.n > 0 /\ left = 0 /\ (stage = "idle" \/ io #
                THEN Send(1) /\ sent' = 1
                ELSE UNCHANGED <<chan, sent>>
             /\ srch' = "done"
-            /\ UNCHANGED <<nread, io, board, table, flagOver, left, best, root, started, pending, out, nextId, ngo, owed, stage, cur>>
+            /\ UNCHANGED <<nread, io, board, table, hid, left, best, root, started, pending, out, nextId, ngo, owed, stage, cur>>
 
 \* no root moves: the thread returns without sending
 SrchNoMoves == /\ srch = "run" /\ root.n = 0 /\ srch' = "done"
-               /\ UNCHANGED <<nread, io, board, table, flagOver, left, chan, best, root, sent, started, pending, out, nextId, ngo, owed, stage, cur>>
+               /\ UNCHANGED <<nread, io, board, table, hid, left, chan, best, root, sent, started, pending, out, nextId, ngo, owed, stage, cur>>
 
 \* The search thread of an ANSWERED go prints the line it owes, at any later moment - possibly while the next go is already
 \* being served, and possibly with a small `time` field (the line was formatted before the thread was pre-empted).  Each
 \* answered search owes at most one such line.  TraceUci tolerates exactly this (Foreign).
 OrphanLastLine == /\ \E p \in owed : /\ owed' = owed \ {p}
                                      /\ out' = Append(out, Line("info-of-previous-search", p, 0))
-                  /\ UNCHANGED <<nread, io, board, table, flagOver, left, chan, best, srch, root, sent, started, pending, nextId, ngo, stage, cur>>
+                  /\ UNCHANGED <<nread, io, board, table, hid, left, chan, best, srch, root, sent, started, pending, nextId, ngo, stage, cur>>
 
-IoStep == IsReady \/ Ignored \/ Position \/ GoTerminal \/ GoAccept \/ Quit \/ Eof \/ PollRecv \/ PollExit
+IoStep == IsReady \/ Ignored \/ NewGame \/ Position \/ GoTerminal \/ GoAccept \/ Quit \/ Eof \/ PollRecv \/ PollExit
 SrchStep == SrchAccept \/ SrchSend \/ SrchPrint \/ SrchStart \/ SrchStop \/ SrchNoMoves \/ OrphanLastLine
 Next == IoStep \/ Tick \/ SrchStep
 
-Fairness == /\ WF_vars(IsReady \/ Ignored \/ Position \/ GoTerminal \/ GoAccept \/ Quit \/ Eof)
+Fairness == /\ WF_vars(IsReady \/ Ignored \/ NewGame \/ Position \/ GoTerminal \/ GoAccept \/ Quit \/ Eof)
             /\ WF_vars(PollRecv) /\ WF_vars(PollExit) /\ WF_vars(Tick)
             /\ WF_vars(SrchStop) /\ WF_vars(SrchNoMoves) /\ WF_vars(SrchSend) /\ WF_vars(SrchPrint)
 Spec == Init /\ [][Next]_vars /\ Fairness
@@ -233,6 +248,11 @@ EachSearchAtMostOneLateLine == \A k \in 1..Len(out) : out[k].t = "info-of-previo
 LateLinesOnlyFromAnsweredSearches ==
   \A k \in 1..Len(out) : out[k].t = "info-of-previous-search" => \E j \in 1..(k - 1) : out[j].t = "bestmove" /\ out[j].a = out[k].a
 AtMostOneStaleLinePerGo == EachSearchAtMostOneLateLine /\ LateLinesOnlyFromAnsweredSearches
+
+\* C16 / C08 (model level): the null move is the answer of finished games only - whatever games went before
+NullMoveOnlyWhenOver == \A i \in 1..Len(out) : out[i].t = "bestmove" => out[i].b >= 0
+\* C17 (model level): the process ends when it is told to (quit, end of input) and never otherwise
+DiesOnlyWhenTold == io = "dead" => \E i \in 1..Len(out) : out[i].t = "exit"
 
 \* liveness: C08 every go is answered; C17 the process ends after quit / end of input
 GoAnswered == (pending = "go") ~> (pending = "none")
